@@ -43,6 +43,31 @@ fn main() {
         }
         return;
     }
+    if id == "fuzz2replay" {
+        // vcheck fuzz2replay <C15|C16> <artifact file> <out.json>
+        vcheck::compile::install_panic_hook();
+        let data = std::fs::read(&args[3]).expect("artifact");
+        let (prop, case) = match args[2].as_str() {
+            "C16" => ("C16", vcheck::fuzzsupport::c16_decode(&data).and_then(|c| serde_json::to_value(c).ok())),
+            _ => ("C15", vcheck::fuzzsupport::c15_replay_case(&data)),
+        };
+        match case {
+            Some(c) => {
+                let rf = vcheck::runner::ReplayFile {
+                    property: prop.to_string(),
+                    signature: "from-fuzzer".into(),
+                    message: format!("crashing libFuzzer input {}", args[3]),
+                    seed: 0,
+                    tier: "thorough".into(),
+                    description: serde_json::json!({"artifact": args[3]}),
+                    case: c,
+                };
+                std::fs::write(&args[4], serde_json::to_string_pretty(&rf).unwrap()).expect("write replay");
+            }
+            None => std::process::exit(2),
+        }
+        return;
+    }
     if id == "astgen" {
         use proptest::strategy::{Strategy, ValueTree};
         vcheck::compile::install_panic_hook();
